@@ -43,6 +43,10 @@ def classify(h, res):
     if res["killed"]:
         v["status"], v["reason"] = "undecided", res["killed"]
         return v
+    m139 = re.search(r"CBMC failed with status (\d+)", out)
+    if m139 and not [c for c in checks if c["status"] == "FAILURE"]:
+        v["status"], v["reason"] = "undecided", "tool-crash: " + m139.group(0)
+        return v
     if verdict is None:
         v["status"] = "undecided"
         tail = out[-1500:]
